@@ -667,20 +667,43 @@ def nontrivial(case, verdict):
     return bool(t & {"mul", "add", "traced-iterated", "revisit"})
 
 
+# failure classes that exist on the unchanged tree (known_findings.json); a case that fails for one of
+# these AND for another reason is reported under the other reason, so a finding never masks a new failure
+DOCUMENTED = ("transparent:populate-assert-undeclared-output-shape",
+              "isolation:stale-trace-file-of-never-registered-rank",
+              "numIters:format-U-rank-has-no-iter-rows")
+
+
+def _classes(why):
+    out = []
+    for clause in why.split(";"):
+        c = clause.strip()
+        if not c or "model" in c.split(":")[0] and "impl" in c:
+            continue
+        if "assert insert_pos is not None" in c:
+            out.append(DOCUMENTED[0])
+        elif "stale rows" in c:
+            out.append(DOCUMENTED[1])
+        elif "format-U rank" in c:
+            out.append(DOCUMENTED[2])
+        else:
+            for key in ("transparent", "exact", "numIters", "isolation", "dump()", "session returns",
+                        "class attributes after", "kernel fails with collection off"):
+                if c.startswith(key):
+                    out.append(key.replace(" ", "-"))
+                    break
+    return out
+
+
 def signature(case, verdict, failed):
-    why = verdict.get("why", "")
     kind = case["kind"]
-    if "spec" in failed:
-        if "assert insert_pos is not None" in why:
-            return "kernel:transparent:populate-assert-undeclared-output-shape"
-        if "stale rows" in why:
-            return f"{kind}:isolation:stale-trace-file-of-never-registered-rank"
-        if "format-U rank" in why:
-            return "kernel:numIters:format-U-rank-has-no-iter-rows"
-        for key in ("transparent:", "exact:", "numIters", "isolation:", "dump()", "session returns",
-                    "class attributes after"):
-            if key in why:
-                return f"{kind}:{key.rstrip(':')}"
+    cls = _classes(verdict.get("why", "")) if "spec" in failed else []
+    sides = sorted(f.split(":")[0] for f in failed if f != "spec")
+    new = [c for c in cls if c not in DOCUMENTED] + sides
+    if new:
+        return f"{kind}:{'/'.join(sorted(set(new)))}"
+    if cls:
+        return f"{kind}:{cls[0]}"
     return f"{kind}:{'/'.join(sorted(f.split(':')[0] for f in failed))}"
 
 
